@@ -10,8 +10,10 @@ import (
 	"encoding/json"
 	"fmt"
 	"os"
+	"path/filepath"
 	"strconv"
 	"strings"
+	"sync"
 	"time"
 
 	"github.com/jimsnab/go-lane"
@@ -44,6 +46,51 @@ func serveMain(args []string) {
 	}
 	start(0, port, persist)
 	out := bufio.NewWriter(os.Stdout)
+	crashDir := ""
+	crashN := 0
+	crashSrc := persist
+	// schedule points of the block/wake loop: a goroutine reaching a point for which a rule
+	// exists waits there until it is released
+	var parkMu sync.Mutex
+	parkRules := map[string]bool{}       // "point id" or "point *"
+	parked := map[string]chan struct{}{} // "point id" -> release channel
+	redisemu.VerifSetPointCallback(func(name string, id int64) {
+		if strings.HasPrefix(name, "block.") || strings.HasPrefix(name, "exec.") {
+			key := fmt.Sprintf("%s %d", name, id)
+			parkMu.Lock()
+			if parkRules[key] || parkRules[name+" *"] {
+				delete(parkRules, key)
+				ch := make(chan struct{})
+				parked[key] = ch
+				parkMu.Unlock()
+				select {
+				case <-ch:
+				case <-time.After(20 * time.Second):
+				}
+				return
+			}
+			parkMu.Unlock()
+			return
+		}
+		if crashDir == "" || !strings.HasPrefix(name, "save.") {
+			return
+		}
+		// what a crash at this point would leave on disk: copy every file of the snapshot directory
+		crashN++
+		dst := filepath.Join(crashDir, fmt.Sprintf("%04d-%s", crashN, name))
+		os.MkdirAll(dst, 0o755)
+		srcDir := filepath.Dir(crashSrc)
+		ents, _ := os.ReadDir(srcDir)
+		for _, e := range ents {
+			if e.IsDir() {
+				continue
+			}
+			b, err := os.ReadFile(filepath.Join(srcDir, e.Name()))
+			if err == nil {
+				os.WriteFile(filepath.Join(dst, e.Name()), b, 0o644)
+			}
+		}
+	})
 	fmt.Fprintf(out, "READY %d\n", port)
 	out.Flush()
 
@@ -94,6 +141,45 @@ func serveMain(args []string) {
 			}
 			start(e, p, path)
 			fmt.Fprintf(out, "STARTED %d\n", p)
+		case "CRASHCOPY": // CRASHCOPY <dir>|off
+			if f[1] == "off" {
+				crashDir = ""
+			} else {
+				crashDir = f[1]
+				crashN = 0
+			}
+			fmt.Fprintln(out, "OK")
+		case "PARK": // PARK <point> <id|*>: the next goroutine reaching the point with that client id waits
+			parkMu.Lock()
+			parkRules[f[1]+" "+f[2]] = true
+			parkMu.Unlock()
+			fmt.Fprintln(out, "OK")
+		case "UNPARK": // forget a rule that was not hit
+			parkMu.Lock()
+			delete(parkRules, f[1]+" "+f[2])
+			parkMu.Unlock()
+			fmt.Fprintln(out, "OK")
+		case "PARKED": // is a goroutine waiting at <point> <id>?
+			parkMu.Lock()
+			_, ok := parked[f[1]+" "+f[2]]
+			parkMu.Unlock()
+			fmt.Fprintln(out, ok)
+		case "RELEASE": // RELEASE <point> <id> | RELEASE all
+			parkMu.Lock()
+			if f[1] == "all" {
+				for k, ch := range parked {
+					close(ch)
+					delete(parked, k)
+				}
+				for k := range parkRules {
+					delete(parkRules, k)
+				}
+			} else if ch, ok := parked[f[1]+" "+f[2]]; ok {
+				close(ch)
+				delete(parked, f[1]+" "+f[2])
+			}
+			parkMu.Unlock()
+			fmt.Fprintln(out, "OK")
 		case "CLIENTS":
 			fmt.Fprintf(out, "%d\n", redisemu.VerifClientCount())
 		case "WORD":
